@@ -118,7 +118,10 @@ func padCount(t *Term) (*Term, bool) {
 		if hi.Op == "none" {
 			hi = mk("const", fmt.Sprint(n))
 		}
-		return mk("bin", "-", hi, lo), true
+		// the count is hi-lo only while 0 <= lo <= hi <= n; outside, the slice expression panics — encoded as an
+		// amount that can never equal the wanted one (a division by zero makes the fold fail)
+		inRange := mk("bin", "*", mk("bin", "<=", hi, mk("const", fmt.Sprint(n))), mk("bin", "<=", lo, hi))
+		return mk("bin", "-", mk("bin", "-", hi, lo), mk("bin", "%", mk("const", "0"), inRange)), true
 	}
 	if n, ok := allEq(t); ok {
 		return mk("const", fmt.Sprint(n)), true
